@@ -252,6 +252,10 @@ impl Module for M {
     }
 
     fn generate(&self, pid: &str, tier: Tier, rng: &mut Rng, emit: &mut dyn FnMut(String)) {
+        // arcs / sectors: the plane sector and the bevel the real code computes from the angles are appended to the op line
+        // (trailing `hk ...` tokens, see shapes.rs) for the model side; `execute` never reads them
+        let mut hooked = |s: String| emit(with_hooks(s));
+        let emit = &mut hooked;
         let quick = tier == Tier::Quick;
         let angles: Vec<(i32, i32)> = if quick {
             vec![(0, 90_000), (30_000, 120_000), (-45_000, -200_000), (90_000, 360_000), (10_000, 400_000), (200_000, 0), (0, -360_000), (15_500, 33_300)]
@@ -392,7 +396,7 @@ impl Module for M {
                     ctx.count("paths:clipping-target");
                 }
                 // optional colour type (default Rgb565); the three paths are the same generic code
-                let ct = t.opt().unwrap_or("rgb565");
+                let ct = t.opt().filter(|s| *s != HOOK_MARK).unwrap_or("rgb565");
                 ctx.count(&format!("paths:colour:{}", ct));
                 let (m1, l1, m2, mp) = match ct {
                     "rgb565" => paths_run::<Rgb565>(op, tb),
